@@ -206,9 +206,19 @@ func signerTuples(p7 *pkcs7.PKCS7, withCert bool) []string {
 		}
 		key := "no-cert"
 		if ee != nil {
-			key = hex.EncodeToString(ee.RawSubjectPublicKeyInfo)
+			// the key the signature is checked with: the parsed public key in canonical PKIX form (the X.509
+			// parser ignores trailing elements inside SubjectPublicKeyInfo / AlgorithmIdentifier, so the raw
+			// SPKI bytes may differ while the key is the same)
+			if b, err := smx509.MarshalPKIXPublicKey(ee.PublicKey); err == nil {
+				key = "pub:" + hex.EncodeToString(b)
+			} else {
+				key = "spki:" + hex.EncodeToString(ee.RawSubjectPublicKeyInfo)
+			}
 			if withCert {
-				key = hex.EncodeToString(ee.Raw)
+				// everything of the certificate that the issuer's signature covers, plus that signature
+				// (outer == inner signatureAlgorithm is enforced by the parser; trailing elements after
+				// signatureValue inside the outer SEQUENCE are ignored by the parser and are no part of it)
+				key += " tbs:" + hex.EncodeToString(ee.RawTBSCertificate) + " certsig:" + hex.EncodeToString(ee.Signature) + " alg:" + ee.SignatureAlgorithm.String()
 			}
 		}
 		out = append(out, "attrs{"+strings.Join(attrs, ",")+"} sig="+hex.EncodeToString(s.EncryptedDigest)+" signer="+key)
@@ -256,12 +266,14 @@ func mutClass(desc string) string {
 	return desc
 }
 
-func flipLast(b []byte) []byte {
+// flipFirst alters the first byte (for a digest handed to ECDSA this is inside the bits the signature uses even
+// when the digest is longer than the group order and gets truncated on the right).
+func flipFirst(b []byte) []byte {
 	if len(b) == 0 {
 		return []byte{0x00}
 	}
 	c := append([]byte{}, b...)
-	c[len(c)-1] ^= 0x01
+	c[0] ^= 0x01
 	return c
 }
 
@@ -330,7 +342,7 @@ func signedE2(t *engine.T, fms map[string]*family, p digestPair, m signMode, n i
 		}
 		t.Eval(1)
 		if perr != nil {
-			t.Fail("signed/own-output-does-not-parse/"+m.name+"/"+style, "%s len=%d: Parse: %v; artefact %s", shape, n, perr, engine.Hex(enc))
+			t.Fail("signed/own-output-does-not-parse/"+m.name, "%s len=%d: Parse: %v; artefact %s", shape, n, perr, engine.Hex(enc))
 			return
 		}
 		if m.external() {
@@ -339,7 +351,7 @@ func signedE2(t *engine.T, fms map[string]*family, p digestPair, m signMode, n i
 			}
 			p7.Content = supplied
 		} else if !bytes.Equal(p7.Content, content) {
-			t.Fail("signed/content-not-returned/"+m.name+"/"+style, "%s len=%d: parsed content %s want %s", shape, n, engine.Hex(p7.Content), engine.Hex(content))
+			t.Fail("signed/content-not-returned/"+m.name, "%s len=%d: parsed content %s want %s", shape, n, engine.Hex(p7.Content), engine.Hex(content))
 		}
 		if len(p7.Signers) != len(set) {
 			t.Fail("signed/signer-count/"+m.name, "%s: %d signers parsed, want %d", shape, len(p7.Signers), len(set))
@@ -354,7 +366,7 @@ func signedE2(t *engine.T, fms map[string]*family, p digestPair, m signMode, n i
 			}
 			t.Eval(1)
 			if verr != nil {
-				t.Fail("signed/own-output-does-not-verify/"+m.name+"/"+p.name+"/"+tr.name+"/"+style, "%s len=%d: %v; artefact %s", shape, n, verr, engine.Hex(enc))
+				t.Fail("signed/own-output-does-not-verify/"+m.name+"/"+p.name, "%s len=%d %s encoding=%s: %v; artefact %s", shape, n, tr.name, style, verr, engine.Hex(enc))
 			} else {
 				t.Outcome("signed/verifies/" + tr.name)
 				t.Nontrivial(fmt.Sprintf("signed/%s/len=%d/%s/%s", shape, n, tr.name, style))
@@ -369,7 +381,7 @@ func signedE2(t *engine.T, fms map[string]*family, p digestPair, m signMode, n i
 			t.Guard("signed/verify-at-time/"+m.name, func() { verr = p7.VerifyWithChainAtTime(f.pool, &mt) })
 			t.Eval(1)
 			if verr != nil {
-				t.Fail("signed/own-output-does-not-verify/"+m.name+"/"+p.name+"/truststore-at-time", "%s len=%d at %v: %v", shape, n, mt, verr)
+				t.Fail("signed/own-output-does-not-verify/"+m.name+"/"+p.name, "%s len=%d at %v: %v", shape, n, mt, verr)
 			}
 		}
 		// a trust store that does not hold the signer's root must refuse
@@ -383,7 +395,7 @@ func signedE2(t *engine.T, fms map[string]*family, p digestPair, m signMode, n i
 		}
 		// a different content / digest handed to the verifier must be refused
 		saved := p7.Content
-		for ai, alt := range [][]byte{flipLast(saved), append(append([]byte{}, saved...), 0x00)} {
+		for ai, alt := range [][]byte{flipFirst(saved), append(append([]byte{}, saved...), 0x00)} {
 			if m.digest && ai == 1 {
 				continue // a digest of the wrong length is an API misuse, not an alteration
 			}
@@ -419,16 +431,20 @@ func signedE3(t *engine.T, f *family, shape string, m signMode, content []byte, 
 	}
 	p0, err := pkcs7.Parse(art)
 	if err != nil {
-		t.Fail("signed/own-output-does-not-parse/"+m.name+"/der", "%s: %v", shape, err)
+		t.Fail("signed/own-output-does-not-parse/"+m.name, "%s: %v", shape, err)
 		return
 	}
 	orig := map[bool][]string{false: signerTuples(p0, false), true: signerTuples(p0, true)}
-	verified := 0
+	verified, skipped := 0, 0
 	cnt := engine.EachMutant(art, engine.MutOpt{DER: true}, func(desc string, mut []byte) {
+		if strings.HasPrefix(desc, "der/nest") {
+			skipped++ // seed-independent deep-nesting probes: run once, in the first E3 case (see envelopeE3)
+			return
+		}
 		mc := mutClass(desc)
 		var p7 *pkcs7.PKCS7
 		var perr error
-		if t.Guard("alter/signed/parse", func() { p7, perr = pkcs7.Parse(mut) }) {
+		if t.Guard("alter", func() { p7, perr = pkcs7.Parse(mut) }) {
 			return
 		}
 		if cfcaAgree {
@@ -441,18 +457,27 @@ func signedE3(t *engine.T, f *family, shape string, m signMode, content []byte, 
 		if m.external() {
 			p7.Content = supplied
 		}
+		plainFailed := false
 		for _, withTrust := range []bool{false, true} {
 			var pool *smx509.CertPool
 			tn := "no-truststore"
 			if withTrust {
 				pool = f.pool
 				tn = "truststore"
+				if plainFailed && t.Quick() {
+					// quick tier: the trust-store verification is the plain verification plus a chain check in the
+					// same function, so it is evaluated only for mutants the plain verification accepts; the
+					// thorough tier evaluates both for every mutant
+					t.Extra("quick_truststore_verifications_skipped", 1)
+					continue
+				}
 			}
 			var verr error
-			if t.Guard("alter/signed/verify/"+m.name, func() { verr = verifySigned(p7, m, pool) }) {
+			if t.Guard("alter", func() { verr = verifySigned(p7, m, pool) }) {
 				continue
 			}
 			if verr != nil {
+				plainFailed = plainFailed || !withTrust
 				t.Outcome("alter/signed/verify-error/" + tn)
 				continue
 			}
@@ -460,11 +485,11 @@ func signedE3(t *engine.T, f *family, shape string, m signMode, content []byte, 
 			t.Outcome("alter/signed/still-verifies/" + tn)
 			t.Nontrivial("alter/signed/still-verifies/" + m.name + "/" + mc + "/" + tn)
 			if !m.external() && !bytes.Equal(p7.Content, content) {
-				t.Fail("alter/signed/verifies-with-different/content/"+m.name+"/"+tn+"/"+mc,
+				t.Fail("alter/signed/verifies-with-different/content/"+m.name,
 					"%s len=%d mutant %s parses and verifies (%s) but carries content %s, signed was %s", shape, n, desc, tn, engine.Hex(p7.Content), engine.Hex(content))
 			}
 			if len(p7.Signers) == 0 {
-				t.Fail("alter/signed/verifies-without-signer/"+m.name+"/"+tn+"/"+mc, "%s mutant %s verifies (%s) with no SignerInfo", shape, desc, tn)
+				t.Fail("alter/signed/verifies-without-signer/"+m.name, "%s mutant %s verifies (%s) with no SignerInfo", shape, desc, tn)
 			}
 			for _, tu := range signerTuples(p7, withTrust) {
 				ok := false
@@ -474,12 +499,13 @@ func signedE3(t *engine.T, f *family, shape string, m signMode, content []byte, 
 					}
 				}
 				if !ok {
-					t.Fail("alter/signed/verifies-with-different/"+whatDiffers(tu, orig[withTrust])+"/"+m.name+"/"+tn+"/"+mc,
+					t.Fail("alter/signed/verifies-with-different/"+whatDiffers(tu, orig[withTrust])+"/"+m.name,
 						"%s len=%d mutant %s parses and verifies (%s) but a verified SignerInfo is not one of the original's: got %.600s ; original %.900s", shape, n, desc, tn, tu, strings.Join(orig[withTrust], " ;; "))
 				}
 			}
 		}
 	})
+	cnt -= skipped
 	t.Eval(cnt)
 	t.Extra("signed_mutants", cnt)
 	t.Extra("signed_mutants_still_verifying", verified)
